@@ -41,11 +41,13 @@ Record vm := mkVm {
   stack : nat;                 (* Vm.stack.len() *)
   hdepth : nat;                (* Vm.host_call_depth *)
   gens : list gstate;          (* generator objects, by creation index *)
-  rlimit : nat; slimit : nat   (* RuntimeLimits: recursion, stack size *) }.
+  rlimit : nat; slimit : nat;  (* RuntimeLimits: recursion, stack size *)
+  pending : bool               (* Vm.pending_exception.is_some() *) }.
 
-Record fixes := mkFx { fx_throw : bool; fx_error : bool; fx_call : bool; fx_decl : bool }.
-Definition fx_old := mkFx false false false false.
-Definition fx_new := mkFx true true true true.
+Record fixes := mkFx { fx_throw : bool; fx_error : bool; fx_call : bool; fx_decl : bool;
+                       fx_modlink : bool; fx_pending : bool }.
+Definition fx_old := mkFx false false false false false false.
+Definition fx_new := mkFx true true true true true true.
 
 Inductive compl := CNormal | CReturn | CThrow (catchable : bool) | CPanic.
 Inductive ctl := Continue | Break (c : compl).
@@ -56,7 +58,8 @@ Inductive rkind := KNext | KRet | KThr.
 Inductive obs :=
 | OProbe (id nframes st hd : nat)
 | OLimit (k : lkind)
-| ODone (r : rres) (nframes st hd : nat).
+| ODone (r : rres) (nframes st hd : nat)
+| OUntidy.   (* a frame returned / suspended while an exception was still pending (compiled code never does) *)
 
 (* ---- behaviour trees ---- *)
 Inductive act :=
@@ -65,7 +68,7 @@ Inductive act :=
 | ACallErr (limits_first : bool)
 | ACallNative (argc : nat) (construct : bool) (body : racts)
 | ARust (body : racts)
-| AReturn | AYield | AGenCreate | AThrow | ARethrow (pending : bool) | AError (catchable : bool)
+| AReturn | AYield | AGenCreate | AAwait | AThrow | ARethrow | AException | AError (catchable : bool)
 with acts := ANil | ACons (a : act) (l : acts)
 with ract :=
 | RProbe (id : nat)
@@ -77,14 +80,16 @@ with ract :=
 | RHostConstructNative (argc : nat) (body : racts)
 | RResume (g : nat) (kind : rkind) (body : acts)
 | RBlock (body : racts)
+| RHostModuleLink (regs : nat)
 | RReturn | RThrow (catchable : bool) | RPropagate (all : bool)
 with racts := RNil | RCons (r : ract) (l : racts).
 
 (* ---- record updates ---- *)
-Definition set_frames v fs := mkVm fs (stack v) (hdepth v) (gens v) (rlimit v) (slimit v).
-Definition set_stack v s := mkVm (frames v) s (hdepth v) (gens v) (rlimit v) (slimit v).
-Definition set_hdepth v h := mkVm (frames v) (stack v) h (gens v) (rlimit v) (slimit v).
-Definition set_gens v g := mkVm (frames v) (stack v) (hdepth v) g (rlimit v) (slimit v).
+Definition set_frames v fs := mkVm fs (stack v) (hdepth v) (gens v) (rlimit v) (slimit v) (pending v).
+Definition set_stack v s := mkVm (frames v) s (hdepth v) (gens v) (rlimit v) (slimit v) (pending v).
+Definition set_hdepth v h := mkVm (frames v) (stack v) h (gens v) (rlimit v) (slimit v) (pending v).
+Definition set_gens v g := mkVm (frames v) (stack v) (hdepth v) g (rlimit v) (slimit v) (pending v).
+Definition set_pending v b := mkVm (frames v) (stack v) (hdepth v) (gens v) (rlimit v) (slimit v) b.
 
 Definition f_set_envs f e := mkF (fp f) (rp f) (regs f) (argc f) (exit_early f) (pushed f) (env_fp f) e (pc f) (handlers f).
 Definition f_set_pc f p := mkF (fp f) (rp f) (regs f) (argc f) (exit_early f) (pushed f) (env_fp f) (envs f) p (handlers f).
@@ -93,7 +98,7 @@ Definition f_set_exit f b := mkF (fp f) (rp f) (regs f) (argc f) b (pushed f) (e
 Definition f_trunc_env f n := f_set_envs f (Nat.min (envs f) n).
 
 Definition dummy := mkF 0 0 0 0 false false 0 0 0 [].
-Definition init (rl sl : nat) := mkVm [dummy] 0 0 [] rl sl.
+Definition init (rl sl : nat) := mkVm [dummy] 0 0 [] rl sl false.
 
 Definition top v := hd dummy (frames v).
 Definition set_top (g : frame -> frame) v :=
@@ -164,12 +169,15 @@ Definition handle_throw fx v : vm * ctl :=
   | [] => (v, Break CPanic)
   | t :: below =>
       if exit_early t then
-        (set_stack (set_frames v (f_trunc_env t (env_fp t) :: below)) (Nat.min (stack v) (fp t)), Break (CThrow true))
+        (set_pending (set_stack (set_frames v (f_trunc_env t (env_fp t) :: below)) (Nat.min (stack v) (fp t))) false,
+         Break (CThrow true))
       else
         match below with
         | [] => (v, Break CPanic)
         | _ :: _ => let '(frs, st, c) := throw_loop fx below t (stack v) in
-                    (set_stack (set_frames v frs) st, c)
+                    let v1 := set_stack (set_frames v frs) st in
+                    (* `pending_exception.take()` when the loop ends in a Break *)
+                    (match c with Break _ => set_pending v1 false | Continue => v1 end, c)
         end
   end.
 
@@ -189,8 +197,8 @@ Fixpoint error_loop (frs : list frame) (last : option frame) (efp : nat) : list 
 Definition handle_error fx v (catchable : bool) : vm * ctl :=
   if catchable then
     match handle_exception_at v (pc (top v) - 1) with
-    | Some v' => (v', Continue)
-    | None => handle_throw fx v
+    | Some v' => (set_pending v' true, Continue)
+    | None => handle_throw fx (set_pending v true)
     end
   else
     let '(frs, last, efp) := error_loop (frames v) None (envs (top v)) in
@@ -198,7 +206,7 @@ Definition handle_error fx v (catchable : bool) : vm * ctl :=
     let v2 :=
       if fx_error fx && exit_early (top v1) then trunc v1 (fp (top v1))
       else match last with Some f => trunc v1 (fp f) | None => v1 end in
-    (v2, Break (CThrow false)).
+    ((if fx_pending fx then set_pending v2 false else v2), Break (CThrow false)).
 
 (* Context::handle_return *)
 Definition handle_return v : vm * ctl :=
@@ -219,21 +227,25 @@ Definition handle_yield v : vm * ctl :=
        end.
 
 (* Generator opcode: GeneratorContext::from_current, then handle_yield *)
-Definition gen_create v : vm * ctl :=
+(* also the Await opcode (start = false): the continuation is resumed with a value, like a generator after a yield *)
+Definition gen_create (start : bool) v : vm * ctl :=
   let t := top v in
   let gs := stack v - fp t in
   let f := mkF 0 (rp t - fp t) (regs t) (argc t) (exit_early t) true (env_fp t) (envs t) (pc t) (handlers t) in
-  handle_yield (set_gens (trunc v (fp t)) (gens v ++ [GStart gs f])).
+  handle_yield (set_gens (trunc v (fp t)) (gens v ++ [if start then GStart gs f else GYield gs f])).
 
 Definition gens_set (l : list gstate) (g : nat) (s : gstate) : list gstate :=
   firstn g l ++ s :: skipn (S g) l.
 
+Definition untidy (v : vm) : list obs := if pending v then [OUntidy] else [].
+
 Definition compl_res (c : compl) : rres :=
   match c with CNormal | CReturn => ROk | CThrow b => RErr b | CPanic => RPanic end.
 
-(* what `run()` returns when the behaviour of the entry frame ended without a Break: the frame at the
-   run boundary is gone.  Only the dummy frame has no code (run() returns a generic Throw). *)
-Definition escaped v : compl := if length (frames v) =? 1 then CThrow true else CPanic.
+(* what `run()` returns when the behaviour of the entry frame ended without a Break: the frame at the run
+   boundary is gone and control would continue in a frame that does not belong to this run() (only reachable
+   from ill-formed states; `no_engine_panic` shows it never happens) *)
+Definition escaped (v : vm) : compl := CPanic.
 
 Definition ordinary_frame (argc regs : nat) (hs : list handler) (ee : bool) (envfp nenv : nat) :=
   mkF 0 0 regs argc ee false envfp (envfp + nenv) 0 hs.
@@ -312,21 +324,25 @@ Fixpoint run_act (v : vm) (a : act) {struct a} : vm * ctl * list obs :=
   | ARust body =>
       let '(v2, r, o) := run_racts v ROk body in
       let '(v3, c) := err_ctl v2 r in (v3, c, o)
-  | AReturn => let '(v1, c) := handle_return v in (v1, c, [])
-  | AYield => if pushed (top v) then let '(v1, c) := handle_yield v in (v1, c, []) else (v, Continue, [])
-  | AGenCreate => if pushed (top v) then (v, Continue, []) else let '(v1, c) := gen_create v in (v1, c, [])
+  | AReturn => let '(v1, c) := handle_return v in (v1, c, untidy v)
+  | AYield => if pushed (top v) then let '(v1, c) := handle_yield v in (v1, c, untidy v) else (v, Continue, [])
+  | AGenCreate => if pushed (top v) then (v, Continue, []) else let '(v1, c) := gen_create true v in (v1, c, untidy v)
+  | AAwait => let '(v1, c) := gen_create false v in (v1, c, untidy v)
   | AThrow =>
-      match handle_exception_at v (pc (top v) - 1) with
+      (* Throw opcode: pending_exception = Some(..) first *)
+      let v0 := set_pending v true in
+      match handle_exception_at v0 (pc (top v0) - 1) with
       | Some v1 => (v1, Continue, [])
-      | None => let '(v1, c) := handle_throw fx v in (v1, c, [])
+      | None => let '(v1, c) := handle_throw fx v0 in (v1, c, [])
       end
-  | ARethrow pending =>
+  | ARethrow =>
       match handle_exception_at v (pc (top v) - 1) with
       | Some v1 => (v1, Continue, [])
       | None =>
-          if pending then let '(v1, c) := handle_throw fx v in (v1, c, [])
+          if pending v then let '(v1, c) := handle_throw fx v in (v1, c, [])
           else let '(v1, c) := handle_return v in (v1, c, [])
       end
+  | AException => (set_pending v false, Continue, [])   (* Exception / MaybeException: pending_exception.take() *)
   | AError c => let '(v1, k) := handle_error fx v c in (v1, k, [])
   end
 
@@ -337,7 +353,7 @@ with run_acts (v : vm) (l : acts) {struct l} : vm * option compl * list obs :=
   | ANil =>
       (* code blocks end in Return *)
       let '(v1, c) := handle_return v in
-      match c with Break k => (v1, Some k, []) | Continue => (v1, None, []) end
+      match c with Break k => (v1, Some k, untidy v) | Continue => (v1, None, untidy v) end
   | ACons a rest =>
       let n := length (frames v) in
       let '(v1, c, o) := run_act v a in
@@ -455,7 +471,10 @@ with run_ract (v : vm) (last : rres) (r : ract) {struct r} : vm * option rres * 
         let v5 := set_stack v4 outer in
         match pop_frame v5 with
         | Some (f', v6) =>
-            let st := match c with CNormal => GYield gs' f' | _ => GDone end in
+            (* a context whose stack was split off again by an Await is dead: the continuation lives in the new one *)
+            let st := match c with
+                      | CNormal => if rp f' + regs f' <=? gs' then GYield gs' f' else GDone
+                      | _ => GDone end in
             let v7 := set_gens v6 (gens_set (gens v6) g st) in
             let '(v8, x, res, o2) := done v7 (compl_res c) in (v8, x, res, o ++ o2)
         | None => let '(v8, x, res, o2) := done v5 RPanic in (v8, x, res, o ++ o2)
@@ -476,6 +495,13 @@ with run_ract (v : vm) (last : rres) (r : ract) {struct r} : vm * option rres * 
       (* embedder-side Rust code made of several entries (Context::run_jobs: an Err from a job ends it) *)
       let '(v2, r, o) := run_racts v ROk body in
       let '(v3, x, res, o2) := done v2 r in (v3, x, res, o ++ o2)
+  | RHostModuleLink rg =>
+      (* SourceTextModule::initialize_environment: push this/func, push_frame (no EXIT_EARLY, nothing runs), pop_frame *)
+      let v1 := push_frame (set_stack v (stack v + 2)) (ordinary_frame 0 rg [] false 0 0) in
+      match pop_frame v1 with
+      | Some (f, v2) => done (if fx_modlink fx then trunc v2 (fp f) else v2) ROk
+      | None => done v1 RPanic
+      end
   | RReturn => (v, Some ROk, last, [])
   | RThrow c => (v, Some (RErr c), last, [])
   | RPropagate all =>
@@ -532,6 +558,7 @@ Fixpoint genfree_act (a : act) : bool :=
   | ACallNative _ _ b => genfree_racts b
   | ARust b => genfree_racts b
   | AGenCreate => false
+  | AAwait => false
   | _ => true
   end
 with genfree_acts (l : acts) : bool :=
